@@ -213,7 +213,7 @@ func constResults(fn *ssa.Function, idx int) (vals []constant.Value, ok bool) {
 	for _, r := range returnsOf(fn) {
 		if idx < len(r.Results) {
 			n++
-			rec(r.Results[idx])
+			rec(retVal(r, idx))
 		}
 	}
 	if n == 0 {
